@@ -321,6 +321,8 @@ pub struct Ctx {
     pub known: Vec<Known>,
     pub start: Instant,
     pub threads: usize,
+    /// re-executing a stored case: do not overwrite replay files
+    pub replaying: bool,
 }
 
 impl Ctx {
@@ -434,7 +436,11 @@ pub fn finish(
         std::fs::create_dir_all("/verif/replays").ok();
     }
     for (i, v) in stats.violations.iter().enumerate() {
-        let path = format!("/verif/replays/{}-{}-{}.json", ctx.property, ctx.seed, i);
+        let path = if ctx.replaying {
+            format!("/verif/target/replayed-{}-{}-{}.json", ctx.property, ctx.seed, i)
+        } else {
+            format!("/verif/replays/{}-{}-{}.json", ctx.property, ctx.seed, i)
+        };
         let doc = json!({
             "property": v.record.property,
             "check": ctx.property,
